@@ -149,6 +149,18 @@ CLAIMS = {
         "Trusted: rustc / driver / engine; arrow compute::min/max and RecordBatch::num_rows; tokio RwLock guard semantics; the BUF_MUTATORS table.",
         "static analysis: MIR edge dominance, value provenance across aggregates, guard-span liveness, who-may-mutate",
         "DESIGN.md §3 C06"),
+    "C14": (
+        "R1 from every assignment to a SplitProgress field (and every insertion into the done-set) no external effect and no Ok exit is reachable without "
+        "passing persist_progress / remove_progress (MIR reachability with persist blocks removed); R2 next_phase's successor table, run_from_phase's phase "
+        "order and per-phase arms (typed HIR tables + switch-edge dominance), resume_split redoes the preparation step from the loaded record; R3 every "
+        "update_shard_metadata of the cut-over takes its expected generation from a read in the same invocation or is the creation guarded by 'just found "
+        "absent'; R4 with the split state gone run_cutover succeeds iff all three recorded sub-steps are done; R5 cleanup only from the Cleanup arm, cut-over "
+        "only at backfill_progress >= 1.0; R6 deterministic back-fill paths, a source is marked done only if no output write failed, the back-fill writer "
+        "reports Ok only after upload AND registration, every Ok exit of the back-fill follows a republication of the fraction. Not decided: row "
+        "conservation as multiset equality; durations of the grace periods.",
+        "Trusted: rustc / driver / engine; the EFFECT_RX table of external effects in rules/C14.py; MetadataClient semantics decided under C02 / C13.",
+        "static analysis: MIR reachability / edge dominance around persistence points, typed-HIR phase tables, value provenance",
+        "DESIGN.md §3 C14"),
 }
 
 NOT_YET = "rule set under construction in this round; see DESIGN.md §3 for the planned static rules"
